@@ -277,4 +277,19 @@ CHECKS = {
             dict(test="TestC16IdleBin", unit="idle-bin", kind="rapid", checks=(16, 320), shards=(16, 16), shrink_s=5, bin=True),
         ],
     ),
+    "C19": dict(
+        level="exploration",
+        technique="enumeration of the (setting x channel x value) product and of conflicting channel pairs on the real binary, judged by observed behaviour",
+        rule="9 observable settings (root, listen-addr, allow-write, client-whitelist, max-clients, read-timeout, debug, json-log, debug-server-listen-addr) x 7 channels (flag, environment "
+             "variable, --config file, PS3NETSRV_CONFIG_FILE file, ./config.ini, $HOME/.config/ps3netsrv-go/config.ini, $XDG_CONFIG_HOME/ps3netsrv-go/config.ini) x 2 distinguishable values: "
+             "the started binary must show the effect of the given value (which marker file it serves, which port accepts, whether MKDIR succeeds, which of 127.0.0.2/127.0.0.3 is admitted, "
+             "how many clients are served at once, whether an idle connection is cut within 2 s, whether debug lines appear, whether every stdout line parses as JSON, on which port pprof "
+             "answers); every flag-vs-other-channel pair with conflicting values must show the flag's effect; other channel pairs (all in thorough, 1/3 in quick) must show one of the two "
+             "values; a malformed value for whitelist / max-clients / root / read-timeout in any channel must stop start-up (nothing listening, non-zero exit, no crash). non-trivial = two "
+             "channels in conflict, or a non-flag channel alone; distinct by (setting, channel list, values)",
+        assumptions=["the real binary built from the working tree is observed through TCP, stdout, exit status and /proc; precedence between non-flag channels is a don't-care (one of the given values)"],
+        units=[
+            dict(test="TestC19Config", unit="config", kind="enum", shards=(16, 16), bin=True),
+        ],
+    ),
 }
